@@ -29,6 +29,13 @@ def jwtMonitor {V : Type} [DecidableEq V] (f : TokenFacts V) (now : Int) (secret
   else if obs.status ≠ 401 then some s!"jwt: rejected request answered {obs.status}, not 401"
   else none
 
+/-- the converse the gate owes as well (`jwt_handler_runs_iff_valid_credential` is an equivalence): a request whose token
+verifies under the current or previous secret and whose time claims are valid is not turned away -/
+def jwtCompleteMonitor {V : Type} (f : TokenFacts V) (now : Int) (secret prev : String) (obs : AuthOut V) : Option String :=
+  if !obs.ran ∧ credentialOk f now secret prev then
+    some s!"jwt: a request with a valid credential (signature under the current or previous secret, time claims valid) was rejected with {obs.status}"
+  else none
+
 /-! ## content security -/
 
 /-- "the signature covers exactly the request's timestamp (within tolerance), method, path, query and body
@@ -55,6 +62,14 @@ def csMonitor (env : CsEnv) (cfg : CsCfg) (req : CsReq) (obs : Resp) : Option St
   else if obs.panic then none
   else if !csCovers env cfg req ∧ obs.status < 400 then
     some s!"cs: unverified request answered {obs.status}, not an error status"
+  else none
+
+/-- the converse for the signature gate: a request whose signature covers it (a checked method, no X-Request-Uri) is not
+refused BY THE GATE. 403 is the gate's own answer; a verified request can still end in 400 further down (a malformed
+encrypted body), which is not the gate's verdict. -/
+def csCompleteMonitor (env : CsEnv) (cfg : CsCfg) (req : CsReq) (obs : Resp) : Option String :=
+  if gatedMethods.contains req.method ∧ req.uri.isEmpty ∧ csCovers env cfg req ∧ !obs.ran ∧ !obs.panic ∧ obs.status = 403 then
+    some "cs: a request whose signature covers its timestamp, method, path, query and body under a configured key was refused (403)"
   else none
 
 /-- "covers exactly the request's … body digest": when the handler runs on an unencrypted request, the body it reads
@@ -139,5 +154,13 @@ def restMonitor {V : Type} [DecidableEq V] (o : RouteOpts) (gatedMethod credOk c
       some s!"rest: a route that declared no gate did not reach its handler (status {status})"
     else if usesRan ≠ 0 then some "rest: a Server.Use middleware ran for a request a gate rejected"
     else none
+
+/-- the converse at the level of a server: a request that carries a valid credential for EVERY gate its route declared
+reaches the handler (the other middlewares pass the harness' requests on). `sigEnds` = a failed signature check ends the
+request (strict, or a user callback installed). -/
+def restCompleteMonitor (o : RouteOpts) (gatedMethod credOk covered sigEnds ran : Bool) (status : Nat) : Option String :=
+  if !ran ∧ (!o.jwt ∨ credOk) ∧ (!(o.sig ∧ o.sigKeys ∧ gatedMethod ∧ sigEnds) ∨ covered) then
+    some s!"rest: a request with a valid credential for every gate its route declared did not reach the handler (status {status})"
+  else none
 
 end GoZero.C18
